@@ -40,7 +40,8 @@ KILLABLE = ("Source", "PSwitch", "LinReg", "Converter")
 
 @st.composite
 def mux_systems(draw, avoid=()):
-    g = G._Gen(draw, G.Opts(f_max=0.08, tables=False, avoid=avoid))
+    g = G._Gen(draw, G.Opts(f_max=0.06, tables=False, avoid=avoid,
+                         similar_sources=draw(st.integers(0, 3)) > 0))
     k = draw(st.integers(1, 4))
     entangled = draw(st.integers(0, 3)) == 0
     nodes = []
